@@ -108,6 +108,16 @@ func (s *session) regRun(w *rec.Writer, sc RegScenario) error {
 	s.log = &rec.Buf{}
 	s.finished = map[string]bool{}
 	s.ev("Begin", "plugins", len(sc.Attempts), "callers", 1, "timeout_ms", int(regTimeout.Milliseconds()))
+	// a plugin that registers late: the two timeouts are told apart by making the request timeout the longer one and
+	// registering between the two (the registration timeout is the one that counts)
+	late := false
+	for _, a := range sc.Attempts {
+		late = late || a.Stall == "lateregister"
+	}
+	if late {
+		adaptation.SetPluginRequestTimeout(5 * regTimeout)
+		defer adaptation.SetPluginRequestTimeout(regTimeout)
+	}
 	r, err := rig.New()
 	if err != nil {
 		return err
@@ -180,6 +190,9 @@ func (s *session) regRun(w *rec.Writer, sc RegScenario) error {
 		mu.Unlock()
 		if a.Stall != "noregister" {
 			go func() {
+				if a.Stall == "lateregister" {
+					time.Sleep(regTimeout + 600*time.Millisecond)
+				}
 				err := p.Register(3 * time.Second)
 				s.ev("reg.result", "p", full, "err", err != nil)
 			}()
@@ -194,7 +207,11 @@ func (s *session) regRun(w *rec.Writer, sc RegScenario) error {
 		s.fmu.Lock()
 		n := len(s.finished)
 		s.fmu.Unlock()
-		if n >= countWellFormed(sc) && time.Since(t0) > time.Duration(countStalls(sc))*regTimeout+50*time.Millisecond {
+		minWait := time.Duration(countStalls(sc))*regTimeout + 50*time.Millisecond
+		if late {
+			minWait = regTimeout + 1100*time.Millisecond // the late registration and what might follow it have had their time
+		}
+		if n >= countWellFormed(sc) && time.Since(t0) > minWait {
 			break
 		}
 		time.Sleep(time.Millisecond)
